@@ -422,8 +422,9 @@ def run(ctx):
                         "the shape/reference falsifier skips cases whose coefficients are non-finite in binary64; the scale-"
                         "equivariance search narrows this: finite normal data must give finite results unless the standard "
                         "formula's own degree-1 quantities leave the normal range",
-                        "finding F-11 (flat end interval overshoot) is fixed in /repo b976cb3; its witnesses are "
-                        "regression cases in corpus/C20.json and would be reported under the same finding key"]
+                        "findings F-11 (flat end interval overshoot, /repo b976cb3) and F-28 (sign tests written as "
+                        "products underflow, /repo 79a08c0) are fixed; their witnesses are regression cases in "
+                        "corpus/C20.json and would be reported under the same finding keys"]
 
 
 def _hist(v):
@@ -455,9 +456,19 @@ META = {
              "preservation on every interval (values between the two data values, monotone in the data's direction), "
              "equality with an independently written standard PCHIP (SciPy end rule, Hermite-basis evaluation) at "
              "every query point inside and outside the range, and non-negativity on the knot range for non-negative "
-             "data. The pre-fix limiter (finding F-11) is still refuted in Proofs/PchipProofs.v. The PrimFloat "
-             "instance of the same term is compared bit-for-bit with PCHIP1D (all coefficients and query values)."),
+             "data. The pre-fix limiter (finding F-11) is still refuted in Proofs/PchipProofs.v; the former "
+             "product-based sign tests (finding F-28) are shown by computation to underflow at binary64 while the "
+             "sign-based ones of the source do not, and proved equal over R. The PrimFloat instance of the same term is "
+             "compared bit-for-bit with PCHIP1D (all coefficients and query values, incl. values scaled by 2^-700, "
+             "2^-520, 2^700). Validated only (not proved): binary64/binary32 behaviour beyond the tie, by a failing-"
+             "input search that always runs, also when the tie is broken: exact power-of-two scale equivariance "
+             "PCHIP1D(x, 2^k y) == 2^k PCHIP1D(x, y) for k in {+-100,+-300,+-500,+-700} (float64) and {+-30,+-60,+-90} "
+             "(float32), finiteness, knot reproduction and data-range containment of the scaled interpolant."),
     "note": ("Trusted: Coq kernel+VM, stdlib real-number axioms, the hand-written model (validated by the "
-             "correspondence each run), PrimFloat==torch float64 elementwise. Theorems are in exact arithmetic; "
-             "binary64 overflow cases are outside the oracle."),
+             "correspondence each run), PrimFloat==torch float64 elementwise. Theorems are in exact arithmetic. "
+             "Floating-point range: the scale search excludes a (data, 2^k) pair only when the standard formula's own "
+             "degree-(+-1) quantities (data, secants, w/secant, coefficients, values) would leave 2^+-1000 (float64) / "
+             "2^+-120 (float32); finite normal data inside that range must give a finite, equivariant, shape-"
+             "preserving interpolant. The SciPy/shape oracle on unscaled data still skips cases with non-finite "
+             "binary64 coefficients."),
 }
